@@ -4,8 +4,11 @@
 P=$1; ID=$2; SEED=${3:-0}
 cd /repo && git diff --quiet || { echo "/repo not clean"; exit 2; }
 git -C /repo apply $P || exit 2
+# the evidence file must only ever come from a run on the unchanged tree: keep it aside
+cp /verif/evidence/$ID.json /tmp/try_mut.$$.ev 2>/dev/null
 cd /verif && VERIF_SEED=$SEED ./check $ID --tier quick > /tmp/try_mut.$$.log 2>&1; RC=$?
 git -C /repo checkout -- .
+[ -f /tmp/try_mut.$$.ev ] && mv /tmp/try_mut.$$.ev /verif/evidence/$ID.json
 grep -v auto_activate /tmp/try_mut.$$.log | grep -A1 "^VIOLATION" | head -6 | cut -c1-260
 grep -v auto_activate /tmp/try_mut.$$.log | tail -1 | cut -c1-200
 rm -f /tmp/try_mut.$$.log
